@@ -33,6 +33,7 @@ def run(ctx):
 
     # ------------------------------------------------------------------ R05.1
     r = ctx.rule("R05.1", "activation is balanced: the handler vectors incremented (under with_content) when an element starts matching are exactly those decremented when it stops, each independently of the others; one-shot element/end-tag handlers are armed once and consumed", "E-AST + E-MIR", floor=6)
+    sm.clause_deactivate_counts(r, mir)
     sm_f = idx.one("start_matching", owner="ContentHandlersDispatcher")
     st_f = idx.one("stop_matching", owner="ContentHandlersDispatcher")
     incs = calls_on_field(sm_f.node, "inc_user_count")
